@@ -64,7 +64,12 @@ pub fn decompress_patch_data(data: &[u8], spec: &ESpec) -> PatchArchiveResult<Ve
                 let chunk_end = if let Some(size_spec) = &chunk.size_spec {
                     let size = size_spec.size as usize;
                     let count = size_spec.count.unwrap_or(1) as usize;
-                    (offset + size * count).min(data.len())
+                    // size and count come from the spec string; saturate so that
+                    // huge values clamp to data.len() instead of overflowing
+                    // (which would leave chunk_end < offset).
+                    size.saturating_mul(count)
+                        .saturating_add(offset)
+                        .min(data.len())
                 } else {
                     // Final chunk with * specifier
                     data.len()
